@@ -183,6 +183,17 @@ func genC02(env *core.Env, emit func(core.Case)) {
 			check("names-other-held-key", "named-last", []*gen.KeyMat{k2, key}, s5.Rec, true)
 			check("names-other-held-key", "named-absent", []*gen.KeyMat{k2}, s5.Rec, true)
 		}
+		// several held keys share the config id: the hello is authentic for the last of them, or is sealed
+		// under an info string made of several configs (never what the draft prescribes)
+		{
+			k0 := gen.NewKey(r, key.ID, "public.example", gen.AllSuites)
+			k1 := gen.NewKey(r, key.ID, "public.example", gen.AllSuites)
+			check("unmodified", "target-last-of-same-id-keys", []*gen.KeyMat{k0, k1, key}, sealed.Rec, false)
+			badInfo := gen.Cat([]byte("tls ech\x00"), k0.Config, key.Config)
+			s6 := gen.SealInfo(plan.OuterBase, r.IntN(len(plan.OuterBase.Exts)+1), key, key.ID, badInfo, suite, pt, nil, 0x0301)
+			check("wrong-info", "info-of-two-configs", []*gen.KeyMat{k0, key}, s6.Rec, true)
+			check("wrong-info", "info-of-two-configs", []*gen.KeyMat{key}, s6.Rec, true)
+		}
 		// payload of another tuple sealed to the same key (authentic, but bound to another outer hello)
 		plan2 := gen.Plan(r, o)
 		sealed2 := gen.Seal(plan2.OuterBase, 0, key, suite, plan2.Enc.Body(), nil, 0x0301)
